@@ -53,5 +53,33 @@ theorem scanLoop_complete_unlabelled (secret Bspend : α) (exp : List (Bytes × 
           simpa using this
         exact List.prefix_cons_inj _ |>.mpr (ih f (by simpa using hfuel) _ hsub' rest hrest)
 
+
+/-- the sender side of the chain: `output_keys`' derivation for ONE group — `j` payments to the SAME
+address `B_spend` under the group's secret, `k` counting from `k₀` (`groupOutputs`, the loop
+`output_key(secret, B_m, k) for k, B_m in enumerate(B_m_values)`) — produces exactly a chain `SpChain`:
+the counter advances by one per repeated recipient, and each key is `x(B_spend + t_k•G)`. -/
+theorem groupOutputs_chain (secret Bspend : α) (j k : Nat) (xs : List Bytes)
+    (h : groupOutputs o H secret (List.replicate j Bspend) k = .ok xs) :
+    ∃ exp, exp.map Prod.fst = xs ∧ exp.length = j ∧ SpChain o H secret Bspend k exp := by
+  induction j generalizing k xs with
+  | zero =>
+    simp only [List.replicate, groupOutputs] at h; cases h
+    exact ⟨[], rfl, rfl, .nil k⟩
+  | succ j ih =>
+    simp only [List.replicate, groupOutputs] at h
+    split at h
+    · cases h
+    rename_i x hx
+    split at h
+    · cases h
+    rename_i rest hrest
+    cases h
+    obtain ⟨exp, he, hl, hc⟩ := ih (k + 1) rest hrest
+    unfold outputKey at hx
+    split at hx
+    · cases hx
+    rename_i t ht
+    exact ⟨(x, t) :: exp, by simp [he], by simp [hl], .cons ht hx hc⟩
+
 end
 end Btc.C16
